@@ -56,6 +56,7 @@ def drawGo (m : Multi) (extra : Option (List Line)) (hasText : Bool) (reap : Lis
   let ds : DrawState := { m.target.ds with lines := lines, alignment := m.alignment }
   let r := paintF m.target ds s
   let m := { m with target := r.1, orphan := [] }
+  let adjust := adjust + (if reap = [] then 0 else m.blankOnTop)
   let m := reap.foldl Multi.removeIdx m
   let kept := if m.target.fx.fkept then min m.target.llc adjust else adjust
   let m := if !hasText then { m with z := m.z + kept, target := { m.target with llc := m.target.llc - adjust } } else m
